@@ -181,11 +181,26 @@ void cmp_result(Cmp& c, hep::multi_channel_result<T> const& a, hep::multi_channe
     cmp_vec(c, "mc.channel_weights", a.channel_weights(), b.channel_weights());
 }
 
+// a VEGAS checkpoint that never saw an integrator has no grid yet (pdf() is not defined for it)
+template <typename C> bool text_has_grid(C const& a)
+{
+    std::ostringstream o;
+    a.serialize(o);
+    std::string t = o.str();
+    // the line after alpha holds "bins dims x..."; dims == 0 means no grid
+    std::size_t p = t.find('\n', t.find('\n', t.find('\n') + 1) + 1);
+    if (p == std::string::npos) return false;
+    std::istringstream in(t.substr(p + 1));
+    std::size_t bins = 0, dims = 0;
+    in >> bins >> dims;
+    return dims != 0;
+}
+
 template <typename C> void cmp_extra(Cmp&, C const&, C const&, hep::plain_result<T> const*) {}
 template <typename C> void cmp_extra(Cmp& c, C const& a, C const& b, hep::vegas_result<T> const*)
 {
     c.num("alpha", a.alpha(), b.alpha());
-    if (a.results().empty() && b.results().empty()) cmp_pdf(c, a.pdf(), b.pdf());
+    if (a.results().empty() && b.results().empty() && text_has_grid(a)) cmp_pdf(c, a.pdf(), b.pdf());
 }
 template <typename C> void cmp_extra(Cmp& c, C const& a, C const& b, hep::multi_channel_result<T> const*)
 {
@@ -275,7 +290,8 @@ template <typename E> void engine_case(Rng& rng, char const* ename)
         T alpha = gen_value(rng);
         bool user = rng.below(2);
         C chk = user ? C(gens[0], gen_pdf(rng, dims, bins), alpha) : C(gens[0], bins, alpha);
-        chk.dimensions(dims);
+        bool never_run = !user && nres == 0 && rng.below(2);      // a default checkpoint written before any integrator saw it
+        if (!never_run) chk.dimensions(dims); else count("default_checkpoints_never_run");
         for (std::size_t i = 0; i < nres; ++i)
         {
             gens.push_back(advanced<E>(rng));
@@ -297,7 +313,8 @@ template <typename E> void engine_case(Rng& rng, char const* ename)
         if (!any) w[0] = T(1);
         bool user = rng.below(2);
         C chk = user ? C(gens[0], w, minw, T(0.25)) : C(gens[0], minw, beta);
-        chk.channels(n);
+        bool never_run = !user && nres == 0 && rng.below(2);
+        if (!never_run) chk.channels(n); else count("default_checkpoints_never_run");
         for (std::size_t i = 0; i < nres; ++i)
         {
             gens.push_back(advanced<E>(rng));
